@@ -263,11 +263,11 @@ class _GlobSplit(Generic[AnyStr]):
                     except StopIteration:
                         pass
                 elif c == '[':
-                    index = i.index
+                    index2 = i.index
                     try:
                         self._sequence(i)
                     except StopIteration:
-                        i.rewind(i.index - index)
+                        i.rewind(i.index - index2)
 
         except StopIteration:
             success = False
